@@ -87,7 +87,7 @@ func (x *Exec) exchange(c *Client, raw []byte, method int, emits []emit, dels []
 	x.opStart = time.Now()
 	x.slept = false
 	x.purgeModel() // the request is processed at this very instant
-	_, _ = c.Sock.WriteTo(raw, x.w.srvAddr)
+	x.w.send(c, raw)
 	x.settle()
 	x.waitCallbacks()
 	o := x.observe()
@@ -348,7 +348,8 @@ func (x *Exec) opAllocate(st *Step) { //nolint:cyclop,gocyclo,maintidx
 	wantPort := 0
 	if token {
 		tok := x.lastToken
-		if tok == nil || time.Since(x.lastTokenAt) >= 30*time.Second {
+		if tok == nil || time.Since(x.lastTokenAt) >= 30*time.Second || x.lastTokenStream != c.Stream {
+			// (a reservation lives in the allocation manager of the listener it was made on)
 			if tok == nil {
 				tok = []byte("NOSUCHTK")
 			}
@@ -531,7 +532,7 @@ func (x *Exec) opAllocate(st *Step) { //nolint:cyclop,gocyclo,maintidx
 
 			return
 		}
-		x.lastToken, x.lastTokenAt, x.lastTokenPort = tv, time.Now(), rport
+		x.lastToken, x.lastTokenAt, x.lastTokenPort, x.lastTokenStream = tv, time.Now(), rport, c.Stream
 		x.St.inc("allocate-evenport")
 	}
 	if wantPort != 0 {
@@ -838,7 +839,7 @@ func (x *Exec) opSend(st *Step) {
 		x.St.inc("send-unauthorised")
 		x.St.inc("send-drop:" + x.dropReason(a, pa))
 	}
-	_, _ = c.Sock.WriteTo(raw, x.w.srvAddr)
+	x.w.send(c, raw)
 	x.settle()
 	x.checkWire(x.observe(), nil, emits, nil, fmt.Sprintf("Send indication (%d bytes) from client %d to %v", len(payload), c.Idx, pa))
 }
@@ -869,8 +870,18 @@ func (x *Exec) dropReason(a *MAlloc, pa *net.UDPAddr) string {
 func (x *Exec) opChannelData(st *Step) {
 	c := x.client(st.C)
 	num := x.chanNumber(st)
+	if c.Stream && !ref.ValidChannel(num) {
+		// on a stream such bytes cannot begin a frame and may cost the connection: that is the
+		// hostile-stream stage's subject (C09), not a relay probe
+		x.St.inc("stream-invalid-prefix-skipped")
+
+		return
+	}
 	payload := synth(st.N, st.Seed, st.Content)
-	frame := ref.EncodeChannelData(num, payload, st.Pad != "none")
+	frame := ref.EncodeChannelData(num, payload, st.Pad != "none" || c.Stream) // padding is mandatory on streams
+	if len(frame) > 65507 && !c.Stream {
+		return // does not fit into one UDP datagram
+	}
 	var emits []emit
 	a := x.m.Allocs[c.Idx]
 	optional := len(frame) >= x.w.cfg.inboundMTU()
@@ -898,7 +909,7 @@ func (x *Exec) opChannelData(st *Step) {
 			}
 		}
 	}
-	_, _ = c.Sock.WriteTo(frame, x.w.srvAddr)
+	x.w.send(c, frame)
 	x.settle()
 	x.checkWire(x.observe(), nil, emits, nil, fmt.Sprintf("ChannelData %#x (%d bytes) from client %d", num, len(payload), c.Idx))
 }
